@@ -33,6 +33,9 @@ def _init_worker():
     assert os.path.realpath(staircase.__file__).startswith(os.path.realpath(REPO)), staircase.__file__
 
 
+PRECOND_Q = {"var", "median", "mode", "ecdf", "percentile", "fractile", "hist", "value_sums", "agg", "describe"}
+
+
 class _Timeout(Exception):
     pass
 
@@ -56,6 +59,11 @@ def _run_one(case):
     try:
         exp = oracle.run_program(case["prog"])
         tol = case.get("mode") == "tol"
+        # a statistic queried outside its precondition (no finite piece on which the function is defined): the
+        # properties are silent and the code raises from a None / empty sequence or returns a placeholder; such an observation is not compared
+        for i, (e, g, st) in enumerate(zip(exp, seen, case["prog"])):
+            if e is None and st["s"] == "query" and st["q"] in PRECOND_Q:
+                seen[i] = {"t": "skip", "was": g}
         bad = [i for i, (e, g) in enumerate(zip(exp, seen)) if not oracle.obs_equal(e, g, tol)]
     except Exception as exc:
         exp, bad = None, [-1]
